@@ -123,6 +123,44 @@ def edif_dangling(text):
             near = sorted((abs(p_ - i), o) for k_, p_, o in origs if k_ == want_kind[tl])[:3]   # the nearest ones: same cell first
             for _, o in near:
                 out.append(("dangling:%s-to-an-original-name" % tl, i + 1, join_edif(toks[:i + 1] + [o] + toks[i + 2:])))
+    # near misses of a second kind: an instanceRef retargeted to an instance that IS declared - but in another cell (for
+    # example inside the cell of a child instance), which is not a declaration in the scope of the reference
+    stack, cell_of, insts, irefs = [], None, {}, []
+    for i, t in enumerate(toks):
+        if t == "(":
+            kw_ = toks[i + 1].lower() if i + 1 < len(toks) else ""
+            nm_ = None
+            if kw_ in ("cell", "instance") and i + 2 < len(toks):
+                nm_ = toks[i + 2]
+                if nm_ == "(" and i + 4 < len(toks) and toks[i + 3].lower() in ("rename", "array"):
+                    nm_ = toks[i + 4] if toks[i + 4] != "(" else (toks[i + 6] if i + 6 < len(toks) else None)
+            stack.append((kw_, nm_, i))
+            if kw_ == "cell":
+                cell_of = (nm_ or "?", i)
+                insts.setdefault(cell_of, [])
+            elif kw_ == "instance" and cell_of is not None and nm_ and nm_ not in "()":
+                insts[cell_of].append((i, nm_))
+        elif t == ")":
+            if stack:
+                kw_, nm_, _ = stack.pop()
+                if kw_ == "cell":
+                    cell_of = None
+        elif t.lower() == "instanceref" and cell_of is not None and i + 1 < len(toks) and toks[i + 1] not in "()":
+            irefs.append((i, cell_of))
+    # an unsupported form of a supported construct: (instanceRef (member X k)) - arrays of instances are not read
+    for i, c in irefs[:40]:
+        out.append(("unsupported:instanceref-member", i + 1, join_edif(toks[:i + 1] + ["(", "member", toks[i + 1], "0", ")"] + toks[i + 2:])))
+    for i, c in irefs:
+        own = set(n_.lower() for _, n_ in insts.get(c, []))
+        near = sorted((abs(p_ - i), n_) for c2, lst in insts.items() if c2 != c for p_, n_ in lst if n_.lower() not in own)
+        seen_ = set()
+        for _, n_ in near:
+            if n_.lower() in seen_:
+                continue
+            seen_.add(n_.lower())
+            out.append(("dangling:instanceref-to-an-instance-of-another-cell", i + 1, join_edif(toks[:i + 1] + [n_] + toks[i + 2:])))
+            if len(seen_) >= 2:
+                break
     for i, t in enumerate(toks[:-1]):
         tl = t.lower()
         if tl in ("cellref", "libraryref", "instanceref", "viewref") and toks[i + 1] not in "()":
